@@ -162,23 +162,19 @@ theorem mem_addDirs (x : Bytes) : ∀ (ps dirs : List Bytes), x ∈ Disk.addDirs
     · simp only [List.mem_append, List.mem_cons, List.not_mem_nil, or_false]
       grind
 
+
 /-! ### the Disk model -/
 
-/-- well-formedness of a Disk state: no loose ref file is empty -/
-def Disk.WF (d : Disk) : Prop := ∀ k v, d.files.get k = some v → v ≠ []
+/-- well-formedness of a Disk state: no loose ref file and no packed value is empty -/
+def Disk.WF (d : Disk) : Prop :=
+  (∀ k v, d.files.get k = some v → v ≠ []) ∧ (∀ k v, d.packed.get k = some v → v ≠ [])
 
-/-- nothing on the file system or in packed-refs stands in the way of writing the loose file `r`:
-no directory on the way to it is a loose file or a packed ref, and `r` itself is not a directory -/
-def Disk.PathClear (d : Disk) (r : Name) : Prop :=
-  (∀ p ∈ ancestors r, d.files.get p = none ∧ d.packed.get p = none) ∧ r ∉ d.dirs
+/-- no stored ref — loose file or packed entry — is a directory on the way to `r` or lives below `r` -/
+def Disk.NoCollision (d : Disk) (r : Name) : Prop :=
+  (∀ p ∈ ancestors r, d.files.get p = none ∧ d.packed.get p = none) ∧
+  (∀ k ∈ d.files.keys, r ∉ ancestors k) ∧ (∀ k ∈ d.packed.keys, r ∉ ancestors k)
 
-instance (d : Disk) (r : Name) : Decidable (d.PathClear r) := by unfold Disk.PathClear; infer_instance
-
-/-- the raw value of `k` is a symbolic ref -/
-def Disk.isSymrefAt (d : Disk) (k : Name) : Bool :=
-  match d.readRef k with
-  | some c => symref.isPrefixOf c
-  | none => false
+instance (d : Disk) (r : Name) : Decidable (d.NoCollision r) := by unfold Disk.NoCollision; infer_instance
 
 theorem Disk.readRef_eq (d : Disk) (hwf : d.WF) (n : Name) : d.readRef n = d.origRef n := by
   unfold Disk.readRef Disk.origRef
@@ -188,7 +184,7 @@ theorem Disk.readRef_eq (d : Disk) (hwf : d.WF) (n : Name) : d.readRef n = d.ori
     have : c ≠ [] := by
       unfold Disk.readLoose at h
       split at h
-      · exact hwf n c h
+      · exact hwf.1 n c h
       · cases h
     exact readRefOf_some this _
 
@@ -201,7 +197,26 @@ theorem Disk.lockMkdirs_ok (d : Disk) (r : Name) (h : ∀ p ∈ ancestors r, d.f
     simp [Disk.isFile, h p hp]
   simp [this]
 
+theorem Disk.packedConflict_false (d : Disk) (r : Name) (h : d.NoCollision r) : d.packedConflict r = false := by
+  unfold Disk.packedConflict
+  rw [Bool.or_eq_false_iff, List.any_eq_false, List.any_eq_false]
+  constructor
+  · intro p hp; simp [(h.1 p hp).2]
+  · intro k hk; simp [h.2.2 k hk]
+
 theorem Disk.readRef_dirs (d : Disk) (dirs : List Bytes) : ({ d with dirs := dirs } : Disk).readRef = d.readRef := rfl
+
+theorem Disk.pruneEmpty_readRef (d : Disk) (n : Name) : (d.pruneEmpty n).readRef = d.readRef := rfl
+
+/-- after pruning, `r` is not a directory — provided no loose file lives below it -/
+theorem Disk.not_mem_pruneEmpty (d : Disk) (r : Name) (h : ∀ k ∈ d.files.keys, r ∉ ancestors k) :
+    r ∉ (d.pruneEmpty r).dirs := by
+  unfold Disk.pruneEmpty
+  simp only [List.mem_filter, not_and]
+  intro _
+  have : d.files.keys.all (fun f => !decide (r ∈ ancestors f)) = true := by
+    rw [List.all_eq_true]; intro f hf; simp [h f hf]
+  simp [this]
 
 theorem Disk.readRef_commit (d : Disk) (hwf : d.WF) (r : Name) (v : Val) (hr : checkRefname r = true) (hv : v ≠ []) :
     ({ d with files := d.files.set r v } : Disk).readRef = RefMap.update d.readRef r (some v) := by
@@ -216,6 +231,17 @@ theorem Disk.readRef_commit (d : Disk) (hwf : d.WF) (r : Name) (v : Val) (hr : c
   · simp only [hn, if_false]
     unfold Disk.readRef Disk.readLoose
     simp only [Map.get_set_ne _ _ _ _ hn]
+
+/-- lock + prune + rename, in one: the write of `r` goes through when nothing collides -/
+theorem Disk.write_ok (d : Disk) (hwf : d.WF) (r : Name) (v : Val) (hr : checkRefname r = true) (hv : v ≠ [])
+    (hbelow : ∀ k ∈ d.files.keys, r ∉ ancestors k) (dirs : List Bytes) :
+    ∃ d2, (({ d with dirs := dirs } : Disk).pruneEmpty r).commitFile r v = .ok d2 ∧
+      d2.readRef = RefMap.update d.readRef r (some v) := by
+  have hnd := Disk.not_mem_pruneEmpty { d with dirs := dirs } r hbelow
+  have hc : (({ d with dirs := dirs } : Disk).pruneEmpty r).commitFile r v =
+      .ok { (({ d with dirs := dirs } : Disk).pruneEmpty r) with files := d.files.set r v } := by
+    simp only [Disk.commitFile, hnd, if_false]; rfl
+  exact ⟨_, hc, Disk.readRef_commit d hwf r v hr hv⟩
 
 theorem Disk.cleanupParents_readRef : ∀ (fuel : Nat) (d : Disk) (n : Bytes),
     (Disk.cleanupParents fuel d n).readRef = d.readRef := by
@@ -265,7 +291,8 @@ theorem Disk.readRef_addPacked : ∀ (l : List (Name × Val)) (d : Disk),
     intro d h
     obtain ⟨ref, sha⟩ := e
     simp only [Disk.addPacked]
-    have hstep : ({ d with files := d.files.del ref, packed := d.packed.set ref sha } : Disk).readRef = d.readRef := by
+    have hstep : ({ d with files := d.files.del ref, peeled := d.peeledAfter ref sha,
+                           packed := d.packed.set ref sha } : Disk).readRef = d.readRef := by
       funext n
       by_cases hn : n = ref
       · subst hn
@@ -280,89 +307,59 @@ theorem Disk.readRef_addPacked : ∀ (l : List (Name × Val)) (d : Disk),
     rw [ih _ (by intro p hp; rw [hstep]; exact h p (by simp [hp]))]
     exact hstep
 
-theorem follow_direct_value (read : Name → Option Val) (n : Name) (names : List Name) (sha : Val)
-    (h : ∀ c, read n = some c → ¬ symref.isPrefixOf c = true)
-    (hf : follow read n = .ok (names, some sha)) : read n = some sha := by
-  unfold follow followAux at hf
-  cases hr : read n with
-  | none => simp [hr] at hf
-  | some c =>
-    have hc := h c hr
-    simp only [hr] at hf
-    by_cases he : c.isEmpty
-    · simp [he] at hf
-    · simp only [he, symrefMaxDepth] at hf
-      simp [hc] at hf
-      rw [hf.2]
-
-theorem Disk.packSelect_direct (d : Disk) (all : Bool) : ∀ (keys : List Name) (l : List (Name × Val)),
-    (∀ k ∈ keys, k ≠ headRef → ∀ c, d.readRef k = some c → ¬ symref.isPrefixOf c = true) →
-    Disk.packSelect d all keys = .ok l → ∀ p ∈ l, d.readRef p.1 = some p.2 := by
+theorem Disk.packSelect_direct (d : Disk) (all : Bool) : ∀ (keys : List Name),
+    ∀ p ∈ Disk.packSelect d all keys, d.readRef p.1 = some p.2 ∧ p.2 ≠ [] ∧ p.1 ∈ keys ∧ p.1 ≠ headRef ∧
+      symref.isPrefixOf p.2 = false := by
   intro keys
   induction keys with
-  | nil => intro l _ h; simp [Disk.packSelect] at h; subst h; simp
+  | nil => intro p hp; simp [Disk.packSelect] at hp
   | cons k rest ih =>
-    intro l hk h
-    have hrest := fun l' => ih l' (fun k' hk' => hk k' (by simp [hk']))
-    unfold Disk.packSelect at h
-    split at h
-    · exact hrest l h
-    · split at h
-      · split at h
-        · cases h
-        · exact hrest l h
-        · rename_i names sha hf
-          split at h
-          · cases h
-          · rename_i l' hl'
-            injection h with h; subst h
-            intro p hp
+    intro p hp
+    have hrest : p ∈ Disk.packSelect d all rest → d.readRef p.1 = some p.2 ∧ p.2 ≠ [] ∧ p.1 ∈ k :: rest ∧
+        p.1 ≠ headRef ∧ symref.isPrefixOf p.2 = false := fun h =>
+      ⟨(ih p h).1, (ih p h).2.1, List.mem_cons_of_mem _ (ih p h).2.2.1, (ih p h).2.2.2⟩
+    unfold Disk.packSelect at hp
+    split at hp
+    · exact hrest hp
+    · rename_i hkh
+      split at hp
+      · split at hp
+        · exact hrest hp
+        · rename_i c hc
+          split at hp
+          · exact hrest hp
+          · rename_i hcc
+            simp only [Bool.or_eq_true, not_or, Bool.not_eq_true] at hcc
             simp only [List.mem_cons] at hp
             rcases hp with rfl | hp
-            · exact follow_direct_value d.readRef k _ sha (hk k (by simp) ‹_›) hf
-            · exact hrest l' hl' p hp
-      · exact hrest l h
-
-theorem Disk.packSelect_ok (d : Disk) (all : Bool) : ∀ (keys : List Name),
-    (∀ k ∈ keys, k ≠ headRef → ∀ c, d.readRef k = some c → ¬ symref.isPrefixOf c = true) →
-    ∃ l, Disk.packSelect d all keys = .ok l := by
-  intro keys
-  induction keys with
-  | nil => intro _; exact ⟨[], rfl⟩
-  | cons k rest ih =>
-    intro hk
-    obtain ⟨l, hl⟩ := ih (fun k' hk' => hk k' (by simp [hk']))
-    unfold Disk.packSelect
-    split
-    · exact ⟨l, hl⟩
-    · obtain ⟨v, hv⟩ := follow_direct d.readRef k (hk k (by simp) ‹_›)
-      split
-      · rw [hv]
-        cases v with
-        | none => exact ⟨l, hl⟩
-        | some sha => simp only [hl]; exact ⟨_, rfl⟩
-      · exact ⟨l, hl⟩
+            · refine ⟨hc, ?_, by simp, hkh, hcc.2⟩
+              intro h0
+              have h0' : c = [] := h0
+              rw [h0'] at hcc; simp at hcc
+            · exact hrest hp
+      · exact hrest hp
 
 
 /-! ### well-formedness is preserved by every operation -/
 
-theorem Disk.WF_of_files {d d' : Disk} (h : d'.files = d.files) (hwf : d.WF) : d'.WF := by
-  intro k v hk; rw [h] at hk; exact hwf k v hk
+theorem Disk.WF_of_eq {d d' : Disk} (hf : d'.files = d.files) (hp : d'.packed = d.packed) (hwf : d.WF) : d'.WF := by
+  constructor
+  · intro k v hk; rw [hf] at hk; exact hwf.1 k v hk
+  · intro k v hk; rw [hp] at hk; exact hwf.2 k v hk
 
-theorem Disk.WF_set {d : Disk} (hwf : d.WF) (k v : Bytes) (hv : v ≠ []) (dirs : List Bytes) :
-    ({ d with files := d.files.set k v, dirs := dirs } : Disk).WF := by
+theorem Map.nonempty_set {m : Map} (h : ∀ k v, m.get k = some v → v ≠ []) (k v : Bytes) (hv : v ≠ []) :
+    ∀ n c, (m.set k v).get n = some c → c ≠ [] := by
   intro n c hn
-  simp only at hn
-  by_cases h : n = k
-  · subst h; rw [Map.get_set_eq] at hn; injection hn with hn; subst hn; exact hv
-  · rw [Map.get_set_ne _ _ _ _ h] at hn; exact hwf n c hn
+  by_cases hk : n = k
+  · subst hk; rw [Map.get_set_eq] at hn; injection hn with hn; subst hn; exact hv
+  · rw [Map.get_set_ne _ _ _ _ hk] at hn; exact h n c hn
 
-theorem Disk.WF_del_files {d d' : Disk} (k : Bytes) (h : d'.files = d.files.del k) (hwf : d.WF) : d'.WF := by
+theorem Map.nonempty_del {m : Map} (h : ∀ k v, m.get k = some v → v ≠ []) (k : Bytes) :
+    ∀ n c, (m.del k).get n = some c → c ≠ [] := by
   intro n c hn
-  rw [h] at hn
-  by_cases h : n = k
-  · subst h; rw [Map.get_del_eq] at hn; cases hn
-  · rw [Map.get_del_ne _ _ _ h] at hn; exact hwf n c hn
+  by_cases hk : n = k
+  · subst hk; rw [Map.get_del_eq] at hn; cases hn
+  · rw [Map.get_del_ne _ _ _ hk] at hn; exact h n c hn
 
 theorem Disk.cleanupParents_files : ∀ (fuel : Nat) (d : Disk) (n : Bytes),
     (Disk.cleanupParents fuel d n).files = d.files := by
@@ -380,15 +377,39 @@ theorem Disk.cleanupParents_files : ∀ (fuel : Nat) (d : Disk) (n : Bytes),
         · rw [ih]
         · rfl
 
-theorem Disk.addPacked_WF : ∀ (l : List (Name × Val)) (d : Disk), d.WF → (Disk.addPacked d l).WF := by
-  intro l
-  induction l with
-  | nil => intro d h; exact h
-  | cons e rest ih =>
-    intro d h
-    obtain ⟨ref, sha⟩ := e
-    simp only [Disk.addPacked]
-    exact ih _ (Disk.WF_del_files ref rfl h)
+theorem Disk.cleanupParents_packed : ∀ (fuel : Nat) (d : Disk) (n : Bytes),
+    (Disk.cleanupParents fuel d n).packed = d.packed := by
+  intro fuel
+  induction fuel with
+  | zero => intro d n; rfl
+  | succ fuel ih =>
+    intro d n
+    unfold Disk.cleanupParents
+    split
+    · rfl
+    · split
+      · rfl
+      · split
+        · rw [ih]
+        · rfl
+
+theorem Disk.cleanupParents_dirs : ∀ (fuel : Nat) (d : Disk) (n : Bytes),
+    ∀ x ∈ (Disk.cleanupParents fuel d n).dirs, x ∈ d.dirs := by
+  intro fuel
+  induction fuel with
+  | zero => intro d n x hx; exact hx
+  | succ fuel ih =>
+    intro d n x hx
+    unfold Disk.cleanupParents at hx
+    split at hx
+    · exact hx
+    · split at hx
+      · exact hx
+      · split at hx
+        · have := ih _ _ x hx
+          simp only [List.mem_filter] at this
+          exact this.1
+        · exact hx
 
 theorem Disk.lockMkdirs_WF {d d1 : Disk} {r : Name} (h : d.lockMkdirs r = .ok d1) (hwf : d.WF) : d1.WF := by
   unfold Disk.lockMkdirs at h
@@ -401,7 +422,29 @@ theorem Disk.commitFile_WF {d d2 : Disk} {r : Name} {v : Val} (h : d.commitFile 
   unfold Disk.commitFile at h
   split at h
   · cases h
-  · injection h with h; subst h; exact Disk.WF_set hwf _ _ hv _
+  · injection h with h; subst h
+    exact ⟨Map.nonempty_set hwf.1 _ _ hv, hwf.2⟩
+
+theorem Disk.pruneEmpty_WF {d : Disk} (r : Name) (hwf : d.WF) : (d.pruneEmpty r).WF := hwf
+
+theorem Disk.removed_WF {d : Disk} (n : Name) (hwf : d.WF) :
+    (({ d with files := d.files.del n } : Disk).removePacked n).WF := by
+  unfold Disk.removePacked
+  split
+  · exact ⟨Map.nonempty_del hwf.1 n, Map.nonempty_del hwf.2 n⟩
+  · exact ⟨Map.nonempty_del hwf.1 n, hwf.2⟩
+
+theorem Disk.addPacked_WF : ∀ (l : List (Name × Val)) (d : Disk), d.WF → (∀ p ∈ l, p.2 ≠ []) →
+    (Disk.addPacked d l).WF := by
+  intro l
+  induction l with
+  | nil => intro d h _; exact h
+  | cons e rest ih =>
+    intro d h hl
+    obtain ⟨ref, sha⟩ := e
+    simp only [Disk.addPacked]
+    exact ih _ ⟨Map.nonempty_del h.1 ref, Map.nonempty_set h.2 ref sha (hl (ref, sha) (by simp))⟩
+      (fun p hp => hl p (by simp [hp]))
 
 theorem Disk.setIfEquals_WF (d : Disk) (hwf : d.WF) (n : Name) (old : Option Val) (v : Val)
     (hv : validRefValue v = true) : (d.setIfEquals n old v).2.WF := by
@@ -412,7 +455,8 @@ theorem Disk.setIfEquals_WF (d : Disk) (hwf : d.WF) (n : Name) (old : Option Val
   all_goals first
     | exact hwf
     | exact Disk.lockMkdirs_WF ‹_› hwf
-    | exact Disk.commitFile_WF ‹_› hne (Disk.lockMkdirs_WF ‹_› hwf)
+    | exact Disk.pruneEmpty_WF _ (Disk.lockMkdirs_WF ‹_› hwf)
+    | exact Disk.commitFile_WF ‹_› hne (Disk.pruneEmpty_WF _ (Disk.lockMkdirs_WF ‹_› hwf))
 
 theorem Disk.addIfNew_WF (d : Disk) (hwf : d.WF) (n : Name) (v : Val)
     (hv : validRefValue v = true) : (d.addIfNew n v).2.WF := by
@@ -423,7 +467,8 @@ theorem Disk.addIfNew_WF (d : Disk) (hwf : d.WF) (n : Name) (v : Val)
   all_goals first
     | exact hwf
     | exact Disk.lockMkdirs_WF ‹_› hwf
-    | exact Disk.commitFile_WF ‹_› hne (Disk.lockMkdirs_WF ‹_› hwf)
+    | exact Disk.pruneEmpty_WF _ (Disk.lockMkdirs_WF ‹_› hwf)
+    | exact Disk.commitFile_WF ‹_› hne (Disk.pruneEmpty_WF _ (Disk.lockMkdirs_WF ‹_› hwf))
 
 theorem Disk.removeIfEquals_WF (d : Disk) (hwf : d.WF) (n : Name) (old : Option Val) :
     (d.removeIfEquals n old).2.WF := by
@@ -435,11 +480,10 @@ theorem Disk.removeIfEquals_WF (d : Disk) (hwf : d.WF) (n : Name) (old : Option 
     | exact Disk.lockMkdirs_WF ‹_› hwf
     | skip
   all_goals
-    apply Disk.WF_of_files (Disk.cleanupParents_files _ _ _)
-    unfold Disk.removePacked
-    split
-    · exact Disk.WF_del_files n rfl (Disk.lockMkdirs_WF ‹_› hwf)
-    · exact Disk.WF_del_files n rfl (Disk.lockMkdirs_WF ‹_› hwf)
+    apply Disk.WF_of_eq (Disk.cleanupParents_files _ _ _) (Disk.cleanupParents_packed _ _ _)
+    first
+      | exact Disk.pruneEmpty_WF _ (Disk.removed_WF n (Disk.lockMkdirs_WF ‹_› hwf))
+      | exact Disk.removed_WF n (Disk.lockMkdirs_WF ‹_› hwf)
 
 theorem Disk.setSymbolicRef_WF (d : Disk) (hwf : d.WF) (n t : Name) : (d.setSymbolicRef n t).2.WF := by
   have hne : symref ++ t ≠ [] := by simp [symref]
@@ -447,13 +491,12 @@ theorem Disk.setSymbolicRef_WF (d : Disk) (hwf : d.WF) (n t : Name) : (d.setSymb
   repeat' split
   all_goals first
     | exact hwf
-    | exact Disk.commitFile_WF ‹_› hne hwf
+    | exact Disk.pruneEmpty_WF _ (Disk.lockMkdirs_WF ‹_› hwf)
+    | exact Disk.commitFile_WF ‹_› hne (Disk.pruneEmpty_WF _ (Disk.lockMkdirs_WF ‹_› hwf))
 
 theorem Disk.packRefs_WF (d : Disk) (hwf : d.WF) (all : Bool) : (d.packRefs all).2.WF := by
   unfold Disk.packRefs
-  split
-  · exact hwf
-  · exact Disk.addPacked_WF _ _ hwf
+  exact Disk.addPacked_WF _ _ hwf (fun p hp => (Disk.packSelect_direct d all _ p hp).2.1)
 
 
 /-! ### Dict -/
@@ -514,22 +557,19 @@ def Spec.run : RefMap → List MOp → List Out × RefMap
   | m, [] => ([], m)
   | m, op :: ops => ((Spec.step m op).1 :: (Spec.run (Spec.step m op).2 ops).1, (Spec.run (Spec.step m op).2 ops).2)
 
-/-- "non-colliding names", on the concrete state an operation starts from — exactly the hypotheses of the
-per-operation refinement theorems: names and values the code accepts; nothing (loose file, packed ref,
-directory) in the way of the file the operation writes; for `set_symbolic_ref` the parent directory
-exists and the name is not in a symref loop; for `pack_refs` no listed ref is a symbolic ref. -/
+/-- "non-colliding names", on the concrete state an operation starts from — the hypotheses of the
+per-operation refinement theorems: names and values the code accepts, and no stored ref (loose or
+packed) on the way to, or below, the ref the operation writes.  `pack_refs` and re-opening need nothing. -/
 def Disk.StepOk (d : Disk) : MOp → Prop
   | .setIfEquals n _ v => checkRefname n = true ∧ validRefValue v = true ∧
-      checkRefname (realname d.readRef n) = true ∧ d.PathClear (realname d.readRef n)
+      checkRefname (realname d.readRef n) = true ∧ d.NoCollision (realname d.readRef n)
   | .addIfNew n v => validRefValue v = true ∧
       (match follow d.readRef n with
-        | .ok (names, c) => checkRefname ((names.getLast?).getD n) = true ∧ d.PathClear ((names.getLast?).getD n) ∧
-            (c = none → d.packed.get n = none)   -- as coded: the packed probe uses `name`, not the resolved name
+        | .ok (names, _) => checkRefname ((names.getLast?).getD n) = true ∧ d.NoCollision ((names.getLast?).getD n)
         | .error _ => True)
-  | .removeIfEquals n _ => checkRefname n = true ∧ (∀ p ∈ ancestors n, d.files.get p = none) ∧ n ∉ d.dirs
-  | .setSymbolicRef n t => checkRefname n = true ∧ checkRefname t = true ∧ d.lockNoMkdirs n = .ok () ∧
-      (match follow d.readRef n with | .ok _ => True | .error _ => False) ∧ n ∉ d.dirs
-  | .packRefs _ => ∀ k ∈ d.allKeys, k ≠ headRef → d.isSymrefAt k = false
+  | .removeIfEquals n _ => checkRefname n = true ∧ (∀ p ∈ ancestors n, d.files.get p = none)
+  | .setSymbolicRef n t => checkRefname n = true ∧ checkRefname t = true ∧ d.NoCollision n
+  | .packRefs _ => True
   | .reopen => True
 
 instance (d : Disk) (op : MOp) : Decidable (d.StepOk op) := by
@@ -538,8 +578,7 @@ instance (d : Disk) (op : MOp) : Decidable (d.StepOk op) := by
   · refine @instDecidableAnd _ _ _ ?_
     split <;> infer_instance
   · infer_instance
-  · refine @instDecidableAnd _ _ _ (@instDecidableAnd _ _ _ (@instDecidableAnd _ _ _ (@instDecidableAnd _ _ ?_ _)))
-    split <;> infer_instance
+  · infer_instance
   · infer_instance
   · infer_instance
 
@@ -555,13 +594,28 @@ def Disk.decAllOk : ∀ (ops : List MOp) (d : Disk), Decidable (d.AllOk ops)
 
 instance (d : Disk) (ops : List MOp) : Decidable (d.AllOk ops) := Disk.decAllOk ops d
 
-/-! ### the symref-free fragment over a universe of non-colliding names -/
+
+/-! ### the invariant over a universe of non-colliding names -/
 
 /-- the directories `git init` creates below the git dir -/
 def baseDirs : List Bytes := [b!"refs", b!"refs/heads", b!"refs/tags"]
 
 /-- no name of the universe is a directory on the way to another one -/
 def NonColliding (U : List Name) : Prop := ∀ a ∈ U, ∀ b ∈ U, a ∉ ancestors b
+
+def MOp.names : MOp → List Name
+  | .setIfEquals n _ _ => [n]
+  | .addIfNew n _ => [n]
+  | .removeIfEquals n _ => [n]
+  | .setSymbolicRef n t => [n, t]
+  | .packRefs _ => []
+  | .reopen => []
+
+/-- values written by `set_if_equals`/`add_if_new` are hex shas (symbolic refs are made by `set_symbolic_ref`) -/
+def MOp.ValuesOk : MOp → Prop
+  | .setIfEquals _ _ v => validHexSha v = true
+  | .addIfNew _ v => validHexSha v = true
+  | _ => True
 
 theorem hex_not_symref {v : Val} (h : validHexSha v = true) : symref.isPrefixOf v = false := by
   unfold validHexSha at h
@@ -573,162 +627,107 @@ theorem hex_not_symref {v : Val} (h : validHexSha v = true) : symref.isPrefixOf 
     have : b ≠ 114 := by intro hh; subst hh; revert hb; decide
     simp [symref, List.isPrefixOf, this.symm]
 
-theorem Disk.cleanupParents_dirs : ∀ (fuel : Nat) (d : Disk) (n : Bytes),
-    ∀ x ∈ (Disk.cleanupParents fuel d n).dirs, x ∈ d.dirs := by
-  intro fuel
-  induction fuel with
-  | zero => intro d n x hx; exact hx
-  | succ fuel ih =>
-    intro d n x hx
-    unfold Disk.cleanupParents at hx
-    split at hx
-    · exact hx
-    · split at hx
-      · exact hx
-      · split at hx
-        · have := ih _ _ x hx
-          simp only [List.mem_filter] at this
-          exact this.1
-        · exact hx
-
-def MOp.names : MOp → List Name
-  | .setIfEquals n _ _ => [n]
-  | .addIfNew n _ => [n]
-  | .removeIfEquals n _ => [n]
-  | .setSymbolicRef n t => [n, t]
-  | .packRefs _ => []
-  | .reopen => []
-
-/-- invariant of the symref-free fragment over a universe `U`: only names of `U` are stored (loose,
-packed or both), all with hex-sha values; only directories on the way to names of `U` exist -/
-structure Disk.Inv (U : List Name) (d : Disk) : Prop where
-  files_in : ∀ k v, d.files.get k = some v → k ∈ U ∧ validHexSha v = true
-  packed_in : ∀ k v, d.packed.get k = some v → k ∈ U ∧ validHexSha v = true
-  dirs_in : ∀ x ∈ d.dirs, x ∈ baseDirs ∨ ∃ u ∈ U, x ∈ ancestors u
-
 theorem hex_ne_nil {v : Val} (h : validHexSha v = true) : v ≠ [] :=
   validRefValue_ne_nil (by simp [validRefValue, h])
 
-theorem Disk.Inv.wf {U : List Name} {d : Disk} (hi : Disk.Inv U d) : d.WF :=
-  fun k v h => hex_ne_nil (hi.files_in k v h).2
+/-- a stored loose value: a hex sha, or a symbolic ref to a name of the universe -/
+def ValOk (U : List Name) (v : Val) : Prop := validHexSha v = true ∨ ∃ t ∈ U, v = symref ++ t
 
-theorem Disk.Inv.readRef_hex {U : List Name} {d : Disk} (hi : Disk.Inv U d) (n : Name) :
-    ∀ c, d.readRef n = some c → validHexSha c = true := by
+theorem ValOk.ne_nil {U : List Name} {v : Val} (h : ValOk U v) : v ≠ [] := by
+  rcases h with h | ⟨t, _, rfl⟩
+  · exact hex_ne_nil h
+  · simp [symref]
+
+theorem ValOk.hex_of_not_symref {U : List Name} {v : Val} (h : ValOk U v) (hs : symref.isPrefixOf v = false) :
+    validHexSha v = true := by
+  rcases h with h | ⟨t, _, rfl⟩
+  · exact h
+  · exfalso
+    have : symref.isPrefixOf (symref ++ t) = true := List.isPrefixOf_iff_prefix.mpr ⟨t, rfl⟩
+    rw [this] at hs; cases hs
+
+theorem ValOk.target {U : List Name} {v : Val} (h : ValOk U v) (hs : symref.isPrefixOf v = true) :
+    v.drop symref.length ∈ U := by
+  rcases h with h | ⟨t, ht, rfl⟩
+  · rw [hex_not_symref h] at hs; cases hs
+  · simpa using ht
+
+/-- only names of `U` are stored — loose (hex sha or symref to a name of `U`), packed (hex sha) or both —
+and only directories on the way to names of `U` exist -/
+structure Disk.Inv (U : List Name) (d : Disk) : Prop where
+  files_in : ∀ k v, d.files.get k = some v → k ∈ U ∧ ValOk U v
+  packed_in : ∀ k v, d.packed.get k = some v → k ∈ U ∧ validHexSha v = true
+  dirs_in : ∀ x ∈ d.dirs, x ∈ baseDirs ∨ ∃ u ∈ U, x ∈ ancestors u
+
+theorem Disk.Inv.wf {U : List Name} {d : Disk} (hi : Disk.Inv U d) : d.WF :=
+  ⟨fun k v h => (hi.files_in k v h).2.ne_nil, fun k v h => hex_ne_nil (hi.packed_in k v h).2⟩
+
+theorem Disk.Inv.readRef_ok {U : List Name} {d : Disk} (hi : Disk.Inv U d) (n : Name) :
+    ∀ c, d.readRef n = some c → ValOk U c := by
   intro c hc
   unfold Disk.readRef Disk.readLoose at hc
-  have hp : ∀ c, d.packed.get n = some c → validHexSha c = true := fun c h => (hi.packed_in n c h).2
+  have hp : ∀ c, d.packed.get n = some c → ValOk U c := fun c h => Or.inl (hi.packed_in n c h).2
   split at hc
   · cases hg : d.files.get n with
     | none => rw [hg] at hc; exact hp c hc
     | some v =>
-      rw [hg, readRefOf_some (hi.wf n v hg)] at hc
+      rw [hg, readRefOf_some (hi.wf.1 n v hg)] at hc
       injection hc with hc; subst hc
       exact (hi.files_in n v hg).2
   · exact hp c hc
 
-theorem Disk.Inv.readRef_direct {U : List Name} {d : Disk} (hi : Disk.Inv U d) (n : Name) :
-    ∀ c, d.readRef n = some c → ¬ symref.isPrefixOf c = true := by
-  intro c hc
-  simp [hex_not_symref (hi.readRef_hex n c hc)]
-
-theorem Disk.lockMkdirs_inv {U : List Name} {d d1 : Disk} {r : Name} (h : d.lockMkdirs r = .ok d1) (hr : r ∈ U)
-    (hi : Disk.Inv U d) : Disk.Inv U d1 := by
-  unfold Disk.lockMkdirs at h
-  split at h
-  · cases h
-  · injection h with h; subst h
-    refine ⟨hi.files_in, hi.packed_in, ?_⟩
-    intro x hx
-    rw [mem_addDirs] at hx
-    rcases hx with hx | hx
-    · exact hi.dirs_in x hx
-    · exact Or.inr ⟨r, hr, hx⟩
-
-theorem Disk.commitFile_inv {U : List Name} {d d2 : Disk} {r : Name} {v : Val} (h : d.commitFile r v = .ok d2)
-    (hr : r ∈ U) (hv : validHexSha v = true) (hi : Disk.Inv U d) : Disk.Inv U d2 := by
-  unfold Disk.commitFile at h
-  split at h
-  · cases h
-  · injection h with h; subst h
-    refine ⟨?_, hi.packed_in, hi.dirs_in⟩
-    intro k c hk
-    simp only at hk
-    by_cases hkr : k = r
-    · subst hkr; rw [Map.get_set_eq] at hk; injection hk with hk; subst hk; exact ⟨hr, hv⟩
-    · rw [Map.get_set_ne _ _ _ _ hkr] at hk; exact hi.files_in k c hk
-
-theorem Disk.cleanupParents_packed : ∀ (fuel : Nat) (d : Disk) (n : Bytes),
-    (Disk.cleanupParents fuel d n).packed = d.packed := by
+/-- following symrefs never leaves the universe -/
+theorem Disk.Inv.followAux_in {U : List Name} {d : Disk} (hi : Disk.Inv U d) :
+    ∀ (fuel : Nat) (n : Name) (acc names : List Name) (c : Option Val), n ∈ U →
+    followAux d.readRef fuel n acc = .ok (names, c) → ∃ r ∈ U, names.getLast? = some r := by
   intro fuel
   induction fuel with
-  | zero => intro d n; rfl
+  | zero =>
+    intro n acc names c hn h
+    unfold followAux at h
+    cases hr : d.readRef n with
+    | none =>
+      simp only [hr] at h
+      injection h with h; injection h with h1 _
+      exact ⟨n, hn, by simp [← h1]⟩
+    | some v =>
+      simp only [hr] at h
+      by_cases he : v.isEmpty
+      · simp only [he, if_true] at h
+        injection h with h; injection h with h1 _
+        exact ⟨n, hn, by simp [← h1]⟩
+      · simp [he] at h
   | succ fuel ih =>
-    intro d n
-    unfold Disk.cleanupParents
-    split
-    · rfl
-    · split
-      · rfl
-      · split
-        · rw [ih]
-        · rfl
+    intro n acc names c hn h
+    unfold followAux at h
+    cases hr : d.readRef n with
+    | none =>
+      simp only [hr] at h
+      injection h with h; injection h with h1 _
+      exact ⟨n, hn, by simp [← h1]⟩
+    | some v =>
+      simp only [hr] at h
+      by_cases he : v.isEmpty
+      · simp only [he, if_true] at h
+        injection h with h; injection h with h1 _
+        exact ⟨n, hn, by simp [← h1]⟩
+      · simp only [he] at h
+        by_cases hs : symref.isPrefixOf v
+        · simp only [hs, if_true] at h
+          exact ih _ _ _ _ ((hi.readRef_ok n v hr).target hs) h
+        · simp only [hs, Bool.false_eq_true, if_false] at h
+          injection h with h; injection h with h1 _
+          exact ⟨n, hn, by simp [← h1]⟩
 
-theorem Disk.remove_inv {U : List Name} {d : Disk} (n : Name) (hi : Disk.Inv U d) :
-    Disk.Inv U (Disk.cleanupParents n.length (({ d with files := d.files.del n } : Disk).removePacked n) n) := by
-  have hfiles : (({ d with files := d.files.del n } : Disk).removePacked n).files = d.files.del n := by
-    unfold Disk.removePacked; split <;> rfl
-  have hdirs : (({ d with files := d.files.del n } : Disk).removePacked n).dirs = d.dirs := by
-    unfold Disk.removePacked; split <;> rfl
-  have hpacked : ∀ k v, (({ d with files := d.files.del n } : Disk).removePacked n).packed.get k = some v →
-      d.packed.get k = some v := by
-    intro k v hk
-    unfold Disk.removePacked at hk
-    split at hk
-    · simp only at hk
-      by_cases hkn : k = n
-      · subst hkn; rw [Map.get_del_eq] at hk; cases hk
-      · rw [Map.get_del_ne _ _ _ hkn] at hk; exact hk
-    · exact hk
-  refine ⟨?_, ?_, ?_⟩
-  · intro k v hk
-    rw [Disk.cleanupParents_files, hfiles] at hk
-    by_cases hkn : k = n
-    · subst hkn; rw [Map.get_del_eq] at hk; cases hk
-    · rw [Map.get_del_ne _ _ _ hkn] at hk; exact hi.files_in k v hk
-  · intro k v hk
-    rw [Disk.cleanupParents_packed] at hk
-    exact hi.packed_in k v (hpacked k v hk)
-  · intro x hx
-    have := Disk.cleanupParents_dirs _ _ _ x hx
-    rw [hdirs] at this
-    exact hi.dirs_in x this
-
-/-- operations of the symref-free fragment: values are hex shas, no `set_symbolic_ref` -/
-def MOp.Direct : MOp → Prop
-  | .setIfEquals _ _ v => validHexSha v = true
-  | .addIfNew _ v => validHexSha v = true
-  | .removeIfEquals _ _ => True
-  | .packRefs _ => True
-  | .reopen => True
-  | .setSymbolicRef _ _ => False
-
-theorem Disk.Inv.pathClear {U : List Name} {d : Disk} (hi : Disk.Inv U d) (hU : ∀ n ∈ U, checkRefname n = true)
-    (hnc : NonColliding U) {n : Name} (hn : n ∈ U) : d.PathClear n := by
-  refine ⟨?_, ?_⟩
-  · intro p hp
-    constructor
-    · cases hg : d.files.get p with
-      | none => rfl
-      | some v => exact absurd hp (hnc p (hi.files_in p v hg).1 n hn)
-    · cases hg : d.packed.get p with
-      | none => rfl
-      | some v => exact absurd hp (hnc p (hi.packed_in p v hg).1 n hn)
-  · intro hd
-    rcases hi.dirs_in n hd with hb | ⟨u, hu, hau⟩
-    · have := hU n hn
-      simp only [baseDirs, List.mem_cons, List.not_mem_nil, or_false] at hb
-      rcases hb with rfl | rfl | rfl <;> exact absurd this (by decide)
-    · exact hnc n hn u hu hau
+theorem Disk.Inv.realname_in {U : List Name} {d : Disk} (hi : Disk.Inv U d) {n : Name} (hn : n ∈ U) :
+    realname d.readRef n ∈ U := by
+  unfold realname
+  cases hf : follow d.readRef n with
+  | error e => exact hn
+  | ok res =>
+    obtain ⟨names, c⟩ := res
+    obtain ⟨r, hr, hl⟩ := hi.followAux_in _ _ _ _ _ hn hf
+    simp only [hl, Option.getD_some]; exact hr
 
 theorem mem_dedup (x : Bytes) : ∀ (l : List Bytes), x ∈ dedup l → x ∈ l := by
   intro l
@@ -759,6 +758,109 @@ theorem mem_keys_get (k : Bytes) : ∀ (m : Map), k ∈ m.keys → ∃ v, m.get 
       · obtain ⟨w, hw⟩ := ih (by simpa [Map.keys] using h)
         exact ⟨w, by simp [Map.get, hk, hw]⟩
 
+theorem Disk.Inv.noCollision {U : List Name} {d : Disk} (hi : Disk.Inv U d) (hnc : NonColliding U) {n : Name}
+    (hn : n ∈ U) : d.NoCollision n := by
+  refine ⟨?_, ?_, ?_⟩
+  · intro p hp
+    constructor
+    · cases hg : d.files.get p with
+      | none => rfl
+      | some v => exact absurd hp (hnc p (hi.files_in p v hg).1 n hn)
+    · cases hg : d.packed.get p with
+      | none => rfl
+      | some v => exact absurd hp (hnc p (hi.packed_in p v hg).1 n hn)
+  · intro k hk
+    obtain ⟨v, hv⟩ := mem_keys_get k _ hk
+    exact hnc n hn k (hi.files_in k v hv).1
+  · intro k hk
+    obtain ⟨v, hv⟩ := mem_keys_get k _ hk
+    exact hnc n hn k (hi.packed_in k v hv).1
+
+theorem Disk.Inv.stepOk {U : List Name} {d : Disk} (hi : d.Inv U) (hU : ∀ n ∈ U, checkRefname n = true)
+    (hnc : NonColliding U) (op : MOp) (hv : op.ValuesOk) (hn : ∀ n ∈ op.names, n ∈ U) : d.StepOk op := by
+  cases op with
+  | setIfEquals n o v =>
+    have hnU := hn n (by simp [MOp.names])
+    have hr := hi.realname_in hnU
+    exact ⟨hU n hnU, by simp [validRefValue, (show validHexSha v = true from hv)], hU _ hr, hi.noCollision hnc hr⟩
+  | addIfNew n v =>
+    have hnU := hn n (by simp [MOp.names])
+    refine ⟨by simp [validRefValue, (show validHexSha v = true from hv)], ?_⟩
+    cases hf : follow d.readRef n with
+    | error e => trivial
+    | ok res =>
+      obtain ⟨names, c⟩ := res
+      obtain ⟨r, hr, hl⟩ := hi.followAux_in _ _ _ _ _ hnU hf
+      simp only [hl, Option.getD_some]
+      exact ⟨hU r hr, hi.noCollision hnc hr⟩
+  | removeIfEquals n o =>
+    have hnU := hn n (by simp [MOp.names])
+    exact ⟨hU n hnU, fun p hp => ((hi.noCollision hnc hnU).1 p hp).1⟩
+  | setSymbolicRef n t =>
+    have hnU := hn n (by simp [MOp.names])
+    have htU := hn t (by simp [MOp.names])
+    exact ⟨hU n hnU, hU t htU, hi.noCollision hnc hnU⟩
+  | packRefs all => trivial
+  | reopen => trivial
+
+
+theorem Disk.lockMkdirs_inv {U : List Name} {d d1 : Disk} {r : Name} (h : d.lockMkdirs r = .ok d1) (hr : r ∈ U)
+    (hi : Disk.Inv U d) : Disk.Inv U d1 := by
+  unfold Disk.lockMkdirs at h
+  split at h
+  · cases h
+  · injection h with h; subst h
+    refine ⟨hi.files_in, hi.packed_in, ?_⟩
+    intro x hx
+    rw [mem_addDirs] at hx
+    rcases hx with hx | hx
+    · exact hi.dirs_in x hx
+    · exact Or.inr ⟨r, hr, hx⟩
+
+theorem Disk.pruneEmpty_inv {U : List Name} {d : Disk} (r : Name) (hi : Disk.Inv U d) : Disk.Inv U (d.pruneEmpty r) := by
+  refine ⟨hi.files_in, hi.packed_in, ?_⟩
+  intro x hx
+  unfold Disk.pruneEmpty at hx
+  simp only [List.mem_filter] at hx
+  exact hi.dirs_in x hx.1
+
+theorem Disk.commitFile_inv {U : List Name} {d d2 : Disk} {r : Name} {v : Val} (h : d.commitFile r v = .ok d2)
+    (hr : r ∈ U) (hv : ValOk U v) (hi : Disk.Inv U d) : Disk.Inv U d2 := by
+  unfold Disk.commitFile at h
+  split at h
+  · cases h
+  · injection h with h; subst h
+    refine ⟨?_, hi.packed_in, hi.dirs_in⟩
+    intro k c hk
+    simp only at hk
+    by_cases hkr : k = r
+    · subst hkr; rw [Map.get_set_eq] at hk; injection hk with hk; subst hk; exact ⟨hr, hv⟩
+    · rw [Map.get_set_ne _ _ _ _ hkr] at hk; exact hi.files_in k c hk
+
+theorem Disk.removed_inv {U : List Name} {d : Disk} (n : Name) (hi : Disk.Inv U d) :
+    Disk.Inv U (({ d with files := d.files.del n } : Disk).removePacked n) := by
+  have hfiles : ∀ k v, (d.files.del n).get k = some v → k ∈ U ∧ ValOk U v := by
+    intro k v hk
+    by_cases hkn : k = n
+    · subst hkn; rw [Map.get_del_eq] at hk; cases hk
+    · rw [Map.get_del_ne _ _ _ hkn] at hk; exact hi.files_in k v hk
+  unfold Disk.removePacked
+  split
+  · refine ⟨hfiles, ?_, hi.dirs_in⟩
+    intro k v hk
+    simp only at hk
+    by_cases hkn : k = n
+    · subst hkn; rw [Map.get_del_eq] at hk; cases hk
+    · rw [Map.get_del_ne _ _ _ hkn] at hk; exact hi.packed_in k v hk
+  · exact ⟨hfiles, hi.packed_in, hi.dirs_in⟩
+
+theorem Disk.cleanupParents_inv {U : List Name} {d : Disk} (fuel : Nat) (n : Name) (hi : Disk.Inv U d) :
+    Disk.Inv U (Disk.cleanupParents fuel d n) := by
+  refine ⟨?_, ?_, ?_⟩
+  · intro k v hk; rw [Disk.cleanupParents_files] at hk; exact hi.files_in k v hk
+  · intro k v hk; rw [Disk.cleanupParents_packed] at hk; exact hi.packed_in k v hk
+  · intro x hx; exact hi.dirs_in x (Disk.cleanupParents_dirs _ _ _ x hx)
+
 theorem Disk.Inv.allKeys_in {U : List Name} {d : Disk} (hi : Disk.Inv U d) {k : Name} (hk : k ∈ d.allKeys)
     (hne : k ≠ headRef) : k ∈ U := by
   unfold Disk.allKeys at hk
@@ -772,34 +874,6 @@ theorem Disk.Inv.allKeys_in {U : List Name} {d : Disk} (hi : Disk.Inv U d) {k : 
     exact (hi.files_in k v hv).1
   · obtain ⟨v, hv⟩ := mem_keys_get k _ h
     exact (hi.packed_in k v hv).1
-
-theorem packSelect_mem (d : Disk) (all : Bool) : ∀ (keys : List Name) (l : List (Name × Val)),
-    Disk.packSelect d all keys = .ok l → ∀ p ∈ l, p.1 ∈ keys ∧ p.1 ≠ headRef := by
-  intro keys
-  induction keys with
-  | nil => intro l h; simp [Disk.packSelect] at h; subst h; simp
-  | cons k rest ih =>
-    intro l h
-    have hrest : ∀ l', Disk.packSelect d all rest = .ok l' → ∀ p ∈ l', p.1 ∈ k :: rest ∧ p.1 ≠ headRef :=
-      fun l' hl' p hp => ⟨List.mem_cons_of_mem _ (ih l' hl' p hp).1, (ih l' hl' p hp).2⟩
-    unfold Disk.packSelect at h
-    split at h
-    · exact hrest l h
-    · rename_i hkh
-      split at h
-      · split at h
-        · cases h
-        · exact hrest l h
-        · split at h
-          · cases h
-          · rename_i l' hl'
-            injection h with h; subst h
-            intro p hp
-            simp only [List.mem_cons] at hp
-            rcases hp with rfl | hp
-            · exact ⟨by simp, hkh⟩
-            · exact hrest l' hl' p hp
-      · exact hrest l h
 
 theorem Disk.addPacked_inv {U : List Name} : ∀ (l : List (Name × Val)) (d : Disk), Disk.Inv U d →
     (∀ p ∈ l, p.1 ∈ U ∧ validHexSha p.2 = true) → Disk.Inv U (Disk.addPacked d l) := by
@@ -826,116 +900,63 @@ theorem Disk.addPacked_inv {U : List Name} : ∀ (l : List (Name × Val)) (d : D
 
 theorem Disk.Inv.packRefs {U : List Name} {d : Disk} (hi : Disk.Inv U d) (all : Bool) : Disk.Inv U (d.packRefs all).2 := by
   unfold Disk.packRefs
-  cases hsel : Disk.packSelect d all d.allKeys with
-  | error e => exact hi
-  | ok l =>
-    simp only
-    apply Disk.addPacked_inv l d hi
-    intro p hp
-    obtain ⟨hk, hne⟩ := packSelect_mem d all _ l hsel p hp
-    have hval := Disk.packSelect_direct d all _ l (fun k _ _ => hi.readRef_direct k) hsel p hp
-    exact ⟨hi.allKeys_in hk hne, hi.readRef_hex p.1 p.2 hval⟩
+  apply Disk.addPacked_inv _ d hi
+  intro p hp
+  obtain ⟨hval, _, hk, hne, hns⟩ := Disk.packSelect_direct d all _ p hp
+  exact ⟨hi.allKeys_in hk hne, (hi.readRef_ok p.1 p.2 hval).hex_of_not_symref hns⟩
 
-theorem Disk.Inv.stepOk {U : List Name} {d : Disk} (hi : d.Inv U) (hU : ∀ n ∈ U, checkRefname n = true)
-    (hnc : NonColliding U) (op : MOp) (hd : op.Direct) (hn : ∀ n ∈ op.names, n ∈ U) : d.StepOk op := by
-  cases op with
-  | setIfEquals n o v =>
-    have hnU := hn n (by simp [MOp.names])
-    have hreal : realname d.readRef n = n := realname_direct _ _ (hi.readRef_direct n)
-    refine ⟨hU n hnU, by simp [validRefValue, (show validHexSha v = true from hd)], ?_, ?_⟩
-    · rw [hreal]; exact hU n hnU
-    · rw [hreal]; exact hi.pathClear hU hnc hnU
-  | addIfNew n v =>
-    have hnU := hn n (by simp [MOp.names])
-    obtain ⟨w, hw⟩ := follow_direct d.readRef n (hi.readRef_direct n)
-    refine ⟨by simp [validRefValue, (show validHexSha v = true from hd)], ?_⟩
-    rw [hw]
-    simp only [List.getLast?_singleton, Option.getD_some]
-    refine ⟨hU n hnU, hi.pathClear hU hnc hnU, ?_⟩
-    intro hwn
-    subst hwn
-    obtain ⟨r, hlast, hread⟩ := followAux_none d.readRef _ _ _ _ hw
-    simp only [List.getLast?_singleton, Option.some.injEq] at hlast
-    subst hlast
-    cases hp : d.packed.get n with
-    | none => rfl
-    | some c =>
-      exfalso
-      have hc : c ≠ [] := hex_ne_nil (hi.packed_in n c hp).2
-      have hrr : ∃ x, d.readRef n = some x ∧ x ≠ [] := by
-        unfold Disk.readRef Disk.readLoose
-        split
-        · cases hg : d.files.get n with
-          | none => exact ⟨c, by simp [readRefOf, hp], hc⟩
-          | some x => exact ⟨x, readRefOf_some (hi.wf n x hg) _, hi.wf n x hg⟩
-        · exact ⟨c, by simp [readRefOf, hp], hc⟩
-      obtain ⟨x, hx, hxne⟩ := hrr
-      rcases hread with h | h
-      · rw [hx] at h; cases h
-      · rw [hx] at h; injection h with h; exact hxne h
-  | removeIfEquals n o =>
-    have hnU := hn n (by simp [MOp.names])
-    have := hi.pathClear hU hnc hnU
-    exact ⟨hU n hnU, fun p hp => (this.1 p hp).1, this.2⟩
-  | setSymbolicRef n t => exact absurd hd id
-  | packRefs all =>
-    intro k _ _
-    unfold Disk.isSymrefAt
-    cases hr : d.readRef k with
-    | none => rfl
-    | some c =>
-      simp only
-      cases hb : symref.isPrefixOf c with
-      | false => rfl
-      | true => exact absurd hb (hi.readRef_direct k c hr)
-  | reopen => trivial
-
-theorem Disk.Inv.step {U : List Name} {d : Disk} (hi : d.Inv U) (op : MOp) (hd : op.Direct)
+theorem Disk.Inv.step {U : List Name} {d : Disk} (hi : d.Inv U) (op : MOp) (hv : op.ValuesOk)
     (hn : ∀ n ∈ op.names, n ∈ U) : (d.step op).2.Inv U := by
   cases op with
   | setIfEquals n o v =>
     have hnU := hn n (by simp [MOp.names])
-    have hreal : realname d.readRef n = n := realname_direct _ _ (hi.readRef_direct n)
-    have hv : validHexSha v = true := hd
+    have hr := hi.realname_in hnU
+    have hvv : ValOk U v := Or.inl hv
     simp only [Disk.step]
     unfold Disk.setIfEquals
-    rw [hreal]
     dsimp only
+    generalize realname d.readRef n = r at hr ⊢
     repeat' split
     all_goals first
       | exact hi
-      | exact Disk.lockMkdirs_inv ‹_› hnU hi
-      | exact Disk.commitFile_inv ‹_› hnU hv (Disk.lockMkdirs_inv ‹_› hnU hi)
+      | exact Disk.lockMkdirs_inv ‹_› hr hi
+      | exact Disk.pruneEmpty_inv _ (Disk.lockMkdirs_inv ‹_› hr hi)
+      | exact Disk.commitFile_inv ‹_› hr hvv (Disk.pruneEmpty_inv _ (Disk.lockMkdirs_inv ‹_› hr hi))
   | addIfNew n v =>
     have hnU := hn n (by simp [MOp.names])
-    obtain ⟨w, hw⟩ := follow_direct d.readRef n (hi.readRef_direct n)
-    have hv : validHexSha v = true := hd
+    have hvv : ValOk U v := Or.inl hv
     simp only [Disk.step]
     unfold Disk.addIfNew
-    rw [hw]
-    dsimp only
-    simp only [List.getLast?_singleton, Option.getD_some]
-    by_cases hvv : validRefValue v = true
-    · simp only [hvv, Bool.not_true, Bool.false_eq_true, if_false]
-      cases w with
-      | some c => exact hi
-      | none =>
-        simp only [Option.isSome_none, Bool.false_eq_true, if_false]
-        by_cases hck : checkRefname n = true
-        · simp only [hck, Bool.not_true, Bool.false_eq_true, if_false]
-          cases hl : d.lockMkdirs n with
-          | error e => exact hi
-          | ok d1 =>
-            have hi1 := Disk.lockMkdirs_inv hl hnU hi
-            simp only
-            by_cases hpe : (d1.pathExists n || (d1.packed.get n).isSome) = true
-            · simp only [hpe, if_true]; exact hi1
-            · simp only [hpe, if_false]
-              cases hc : d1.commitFile n v with
-              | error e => exact hi1
-              | ok d2 => exact Disk.commitFile_inv hc hnU hv hi1
-        · simp only [hck, Bool.not_false, if_true]; exact hi
-    · simp only [hvv, Bool.not_false, if_true]; exact hi
+    by_cases hval : validRefValue v = true
+    · simp only [hval, Bool.not_true, Bool.false_eq_true, if_false]
+      cases hf : follow d.readRef n with
+      | error e => exact hi
+      | ok res =>
+        obtain ⟨names, c⟩ := res
+        obtain ⟨r, hr, hl⟩ := hi.followAux_in _ _ _ _ _ hnU hf
+        simp only [hl, Option.getD_some]
+        cases c with
+        | some c => exact hi
+        | none =>
+          simp only [Option.isSome_none, Bool.false_eq_true, if_false]
+          by_cases hck : checkRefname r = true
+          · simp only [hck, Bool.not_true, Bool.false_eq_true, if_false]
+            by_cases hpc : d.packedConflict r = true
+            · simp only [hpc, if_true]; exact hi
+            · simp only [hpc, Bool.false_eq_true, if_false]
+              cases hl : d.lockMkdirs r with
+              | error e => exact hi
+              | ok d1 =>
+                have hi1 := Disk.pruneEmpty_inv r (Disk.lockMkdirs_inv hl hr hi)
+                simp only
+                by_cases hpe : ((d1.pruneEmpty r).pathExists r || (d1.packed.get r).isSome) = true
+                · simp only [hpe, if_true]; exact hi1
+                · simp only [hpe, Bool.false_eq_true, if_false]
+                  cases hc : (d1.pruneEmpty r).commitFile r v with
+                  | error e => exact hi1
+                  | ok d2 => exact Disk.commitFile_inv hc hr hvv hi1
+          · simp only [hck, Bool.not_false, if_true]; exact hi
+    · simp only [hval, Bool.not_false, if_true]; exact hi
   | removeIfEquals n o =>
     have hnU := hn n (by simp [MOp.names])
     simp only [Disk.step]
@@ -945,9 +966,21 @@ theorem Disk.Inv.step {U : List Name} {d : Disk} (hi : d.Inv U) (op : MOp) (hd :
     all_goals first
       | exact hi
       | exact Disk.lockMkdirs_inv ‹_› hnU hi
-      | exact Disk.remove_inv n (Disk.lockMkdirs_inv ‹_› hnU hi)
-  | setSymbolicRef n t => exact absurd hd id
+      | exact Disk.cleanupParents_inv _ _ (Disk.pruneEmpty_inv _ (Disk.removed_inv n (Disk.lockMkdirs_inv ‹_› hnU hi)))
+      | exact Disk.cleanupParents_inv _ _ (Disk.removed_inv n (Disk.lockMkdirs_inv ‹_› hnU hi))
+  | setSymbolicRef n t =>
+    have hnU := hn n (by simp [MOp.names])
+    have htU := hn t (by simp [MOp.names])
+    have hvv : ValOk U (symref ++ t) := Or.inr ⟨t, htU, rfl⟩
+    simp only [Disk.step]
+    unfold Disk.setSymbolicRef
+    repeat' split
+    all_goals first
+      | exact hi
+      | exact Disk.pruneEmpty_inv _ (Disk.lockMkdirs_inv ‹_› hnU hi)
+      | exact Disk.commitFile_inv ‹_› hnU hvv (Disk.pruneEmpty_inv _ (Disk.lockMkdirs_inv ‹_› hnU hi))
   | packRefs all => exact hi.packRefs all
   | reopen => exact hi
+
 
 end Dulwich.Refs
